@@ -19,7 +19,7 @@ sits in runs (observed `run` signal) and every enclosing branch is the one Amara
 
 from __future__ import annotations
 
-from amaranth import *
+from amaranth import C, Elaboratable, Signal
 
 
 # ---------------------------------------------------------------------------------------------
